@@ -257,3 +257,66 @@ def c_multi(ctx, case):
         ctx.close(w, models[K][0], name + " weights vs reference", rtol=1e-7, atol=1e-10)
         ctx.close(mu, models[K][1], name + " means vs reference", rtol=1e-7, atol=1e-9 * sc)
         ctx.close(var, models[K][2], name + " variances vs reference", rtol=1e-6, atol=1e-8 * sc * sc)
+
+
+def g_warm(draw):
+    C = gen.integer(draw, 2, 4)
+    F = gen.integer(draw, 1, 3)
+    r = gen.rng(draw)
+    scales = gen.feature_scales(draw, F, lo=-2, hi=2)
+    prior = gen.gmm_params(draw, C, F, scales=scales, offs=gen.feature_offsets(draw, F, scales, kmax=10.0))
+    # well separated components: 40 sigma apart along the first feature
+    prior["means"] = prior["means"].copy()
+    prior["means"][:, 0] = prior["offsets"][0] + scales[0] * 40.0 * np.sqrt(7.4) * np.arange(C)
+    sd = np.sqrt(prior["variances"])
+    n1 = gen.integer(draw, C, 16)
+    comp = np.concatenate([np.arange(C), r.integers(0, C, n1 - C)])
+    X1 = prior["means"][comp] + sd[comp] * r.normal(0.7, 1.0, (n1, F))
+    keep = sorted(set(int(v) for v in r.integers(0, C, gen.integer(draw, 1, C - 1))))
+    n2 = gen.integer(draw, 1, 10)
+    comp2 = r.choice(keep, n2)
+    X2 = prior["means"][comp2] + sd[comp2] * r.normal(-0.5, 1.0, (n2, F))
+    mode = gen.choice(draw, ["reynolds", "reynolds", "fixed"])
+    return {"prior": prior, "X1": X1, "X2": X2, "K1": gen.integer(draw, 1, 3), "K2": gen.integer(draw, 1, 3),
+            "upd": [True, False, gen.boolean(draw)], "relevance": float(10.0 ** draw(gen.st.floats(-1, 1.5))) if mode == "reynolds" else None,
+            "alpha": gen.choice(draw, [0.5, 0.3, 0.9]), "count_floor": EPS, "keep": keep,
+            "same_machine": gen.boolean(draw)}
+
+
+@REG.obligation("warm_start_on_new_data", g_warm, quick=250, thorough=5000)
+def c_warm(ctx, case):
+    """An adapted machine trained further on data that leave some components WITHOUT ANY evidence: those
+    components return to the prior's means (alpha = 0), the others blend prior and data as usual."""
+    p, upd = case["prior"], case["upd"]
+    prior_t = (p["weights"], p["means"], p["variances"])
+    cur = prior_t
+    starved_after_moving = False
+    for X, K in ((case["X1"], case["K1"]), (case["X2"], case["K2"])):
+        for _ in range(K):
+            s = ref.gmm_stats(X, *cur)
+            if ((s["n"] >= case["count_floor"]) & (s["n"] < 1e-6)).any():
+                ctx.discard("component with count floor <= n < 1e-6")
+            moved = np.abs(cur[1] - p["means"]).max(axis=1) > 1e-9 * np.abs(p["means"]).max()
+            if ((s["n"] < case["count_floor"]) & moved).any():
+                starved_after_moving = True
+            cur = ref.map_mstep(s["n"], s["sum_px"], s["sum_pxx"], X.shape[0], prior_t, cur, upd[0], False, upd[2],
+                                case["relevance"], case["alpha"], case["count_floor"], p["floors"])
+    ctx.note(starved_after_moving, "reynolds" if case["relevance"] is not None else "fixed-alpha",
+             "starved-after-moving" if starved_after_moving else "never-starved",
+             "same-machine" if case["same_machine"] else "means-assigned")
+    ubm, g = map_machine(dict(case, upd=[upd[0], False, upd[2]]), case["K1"])
+    g.fit(case["X1"])
+    if case["same_machine"]:
+        g.max_fitting_steps = case["K2"]
+        g.fit(case["X2"])
+    else:
+        # warm start of a second machine through the public setters
+        _, h = map_machine(dict(case, upd=[upd[0], False, upd[2]]), case["K2"], prior_machine=ubm)
+        h.means = np.array(g.means, copy=True)
+        h.weights = np.array(g.weights, copy=True)
+        h.fit(case["X2"])
+        g = h
+    w, mu, var = sut.params_of(g)
+    sc = float(max(np.abs(case["X1"]).max(), np.abs(p["means"]).max()))
+    ctx.close(mu, cur[1], "means after continuing on data that starve some components", rtol=1e-7, atol=1e-9 * sc)
+    ctx.close(w, cur[0], "weights after continuing on data that starve some components", rtol=1e-7, atol=1e-10)
